@@ -168,6 +168,25 @@ func c14New(f c14Fields, idStr string) *kcl.KeyCredential {
 		kutils.DateTime{Ticks: binary.LittleEndian.Uint64(f.Last)}, kutils.DateTime{Ticks: binary.LittleEndian.Uint64(f.Created)})
 }
 
+// c14Seal: the constructor has no parameter for usage / source (it builds an AD / NGC credential); a caller that wants another
+// one assembles the object by hand -- the same fields, nothing serialised yet -- and seals it, which is what the hash over the
+// covered entries is for.  (Changing the fields of a CONSTRUCTED object and calling ComputeKeyHash again is not that: the object
+// keeps the blob of its first serialisation and hashes that one; reported by the caller as a deviation outside C14's quantifier.)
+func c14Seal(kc *kcl.KeyCredential, f c14Fields) (staleHash bool) {
+	if int(kc.Usage.Value) == f.Usage && int(kc.Source) == f.Source {
+		return false
+	}
+	inPlace := *kc
+	inPlace.Usage.Value = uint8(f.Usage)
+	inPlace.Source = key.KeySource(f.Source)
+	stale := inPlace.ComputeKeyHash()
+	kc.Usage.Value = uint8(f.Usage)
+	kc.Source = key.KeySource(f.Source)
+	kc.RawBytes, kc.RawBytesSize, kc.KeyHash = nil, 0, []byte{}
+	kc.KeyHash = kc.ComputeKeyHash()
+	return !bytes.Equal(stale, kc.KeyHash)
+}
+
 var c14EntryNames = map[byte]string{1: "KeyID", 2: "KeyHash", 3: "KeyMaterial", 4: "KeyUsage", 5: "KeySource", 6: "DeviceId",
 	7: "CustomKeyInformation", 8: "KeyApproximateLastLogonTimeStamp", 9: "KeyCreationTime"}
 
@@ -432,9 +451,17 @@ func c14Cred(c *h.Ctx, k c14Case, own map[string]int, kept *[]c14Kept) {
 	}
 	// 2. build, serialise, identify
 	kc := c14New(f, c14IdString(cands[0].Kid, f.Ver))
-	if int(kc.Usage.Value) != f.Usage || int(kc.Source) != f.Source {
+	if int(kc.Usage.Value) != 1 || int(kc.Source) != 0 {
 		D(c14KC, "new-defaults", fmt.Sprintf("NewKeyCredential sets usage %d source %d; the case table assumes NGC (1) / AD (0)", kc.Usage.Value, int(kc.Source)))
 		return
+	}
+	stale := false
+	if p := h.Guard(func() { stale = c14Seal(kc, f) }); p != "" {
+		P(c14KC+".ComputeKeyHash", "panic", p)
+		return
+	}
+	if stale {
+		D(c14KC+".ComputeKeyHash", "hash-of-first-serialisation-after-field-change", "after Usage/Source of a constructed object are changed, ComputeKeyHash() still hashes the blob of the first serialisation")
 	}
 	var blob []byte
 	var err error
@@ -718,6 +745,7 @@ func c14Flips(c *h.Ctx) error {
 		var mine []byte
 		h.Guard(func() {
 			kc := c14New(l.F, c14IdString(l.Enc.Kid, l.F.Ver))
+			c14Seal(kc, l.F)
 			mine, _ = kc.ToBytes()
 		})
 		fb.own = bytes.Equal(mine, fb.blob)
